@@ -377,6 +377,64 @@ def _active_format(tb_frames):
     return "core"
 
 
+def _vm_bytes():
+    with open("/proc/self/statm") as f:
+        return int(f.read().split()[0]) * 4096
+
+
+def alloc_site(arg, bound):
+    """second pass for a case that exceeded the allocation bound: lower the
+    address-space limit to (current + bound) and record where the first
+    MemoryError is raised (sys.monitoring RAISE event, so that a handler that
+    swallows it does not hide the site)"""
+    import resource
+    import amoco.system.core as C
+
+    mon = sys.monitoring
+    tool = mon.DEBUGGER_ID
+    found = []
+
+    def on_raise(code, off, exc):
+        if isinstance(exc, MemoryError) and not found:
+            f = sys._getframe(1)
+            lab = None
+            while f is not None:
+                fn = f.f_code.co_filename
+                if "/amoco/" in fn:
+                    lab = "%s:%s" % (fn.split("/amoco/")[-1], f.f_code.co_qualname)
+                    break
+                f = f.f_back
+            found.append(lab or "?")
+
+    soft, hard = resource.getrlimit(resource.RLIMIT_AS)
+    try:
+        mon.use_tool_id(tool, "amosim-alloc")
+    except ValueError:
+        pass
+    mon.register_callback(tool, mon.events.RAISE, on_raise)
+    set_events = mon.set_events
+    try:
+        lim = _vm_bytes() + bound
+        if hard != resource.RLIM_INFINITY:
+            lim = min(lim, hard)
+        resource.setrlimit(resource.RLIMIT_AS, (lim, hard))
+        set_events(tool, mon.events.RAISE)
+        try:
+            C.read_program(arg)
+        except BaseException:
+            pass
+        finally:
+            set_events(tool, 0)
+    finally:
+        resource.setrlimit(resource.RLIMIT_AS, (soft, hard))
+        mon.register_callback(tool, mon.events.RAISE, None)
+        try:
+            mon.free_tool_id(tool)
+        except Exception:
+            pass
+    return found[0] if found else "?"
+
+
 def one_case(case, st, measure_mem):
     """-> (outcome, violation or None, events)"""
     import amoco.system.core as C
@@ -448,7 +506,8 @@ def one_case(case, st, measure_mem):
     if viol is None and peak is not None:
         st.hit("probe:memory-measured")
         if peak > MEM_BASE + MEM_PER_BYTE * len(data):
-            viol = {"class": "memory-exceeded", "signature": "filesim:memory:%s" % outcome, "detail": {"peak": peak, "file_size": len(data)}}
+            site = alloc_site(arg, MEM_BASE + MEM_PER_BYTE * len(data))
+            viol = {"class": "memory-exceeded", "signature": "filesim:memory@%s" % site, "detail": {"peak": peak, "file_size": len(data), "allocation_site": site, "returned": outcome}}
     if viol is None:
         st.hit("probe:outcome:" + outcome)
         if not case.get("faults") or changed == 0:
@@ -593,6 +652,10 @@ def run(spec):
             st.hit("cases-nontrivial")
         if v is not None:
             v["detail"]["case"] = {k: case[k] for k in case if k != "data"}
+            if v["signature"] in (spec.get("known_keys") or []):
+                # an open known finding (signature-keyed): tally and go on
+                st.hit("known-finding:" + v["signature"])
+                continue
             if spec.get("survey"):
                 sg = v["signature"]
                 st.hit("survey:" + sg)
@@ -667,3 +730,6 @@ def finalize_coverage(prop, tier, cov, specs, results):
         "field_rule": "every located field x every boundary value" if tier == "thorough" else "every 5th (field, value) pair",
     }
     cov["exhaustive"] = False
+    for k, v in cov["counters"].items():
+        if k.startswith("known-finding:"):
+            cov["known_findings_tallied"][k[len("known-finding:"):]] = v
